@@ -163,6 +163,10 @@ fn alpha(cfg: &Cfg) -> Vec<Op> {
         c(Ed(Some(1))),
         c(Decaln),
         c(Decstr),
+        // lines scrolled off and the screen erased in the SAME call (what scrolled off is still
+        // waiting to be handed out when the erase runs)
+        c(Seq(vec![Text("p".into()), Cr, Lf, Text("q".into()), Cr, Lf, Text("r".into()), Cr, Lf, Ed(Some(2))])),
+        c(Seq(vec![lfs(3), Ed(Some(3)), Decaln])),
         // excursion in one call
         c(Seq(vec![DecSet(vec![1049]), Text("alt".into()), lfs(4), DecRst(vec![1049])])),
         c(Seq(vec![Text("ab".into()), lfs(2), DecSet(vec![47])])),
